@@ -202,3 +202,26 @@ CLAIMS['C04'] = dict(
          'an entry is copied verbatim only on the not-invalid edge and as its own [begin,end), invalid entries are dropped (remove mode) or go through the escape switch, which for all 256 bytes emits &lt; &gt; &amp; &quot; and otherwise the byte; '
          'validate_entry_by_rules has a case for each of the html_data_type enumerators, rejects invalid_data, unparsed html_tag, unknown kinds and unlisted tags, consults valid_tag / valid_entity and valid_property or valid_boolean_property for every attribute, rejects duplicates; only regex_match is used (its anchoring is C20.R1).',
     note='Not decided: tokeniser tiling, attribute-value entity parsing, numeric entity range (parse_html_entity accepts low surrogates DC00-DFFF textually: observation), nesting checker semantics, stability filter(filter(x)) as a value property.')
+
+
+# clauses added in the second session (rules listed in DESIGN.md section 6.2)
+EXTRA = {
+ 'C01': 'Also decided: the HTTP header budget is charged with exactly the bytes handed to the parser on each pass (symbolic equality with size - cursor), so the 16 KiB limit does not depend on segmentation.',
+ 'C02': 'Also decided: no throwing overload of a booster::aio socket operation is used in a connection class where an error_code overload exists; no throw expression or checked accessor (at(), sto*()) is reachable outside a try block from the context callbacks that prepare a request on the event-loop thread (call graph over eight units, library calls without a body assumed not to throw).',
+ 'C03': 'Also decided: the FastCGI full-size record header is prepared on the strength of the current call only (no connection state in the guard); booster::aio::details::advance (buffer + n) keeps exactly the bytes after the first n.',
+ 'C04': 'Also decided: ascii_streq, which pairs closing with opening tags, is exact (abstract interpretation, names of 0..3 bytes) and pairing happens only on its success.',
+ 'C05': 'Also decided: aes_factory takes the encryption key and the MAC key from disjoint, covering parts of an exact-length secret (linear implication) or from two separately labelled HMAC derivations.',
+ 'C06': 'Also decided: valid_sid accepts exactly "I" + 32 lower-case hex digits (abstract interpretation per position and length); entry::operator== used for change detection covers every field; delegating session_api implementations forward parameters in their roles.',
+ 'C08': 'Also decided: shared-memory pressure is judged by buddy_allocator::max_free_chunk through shmem_control::max_available.',
+ 'C10': 'Also decided: messenger::transmit returns normally only after the request was written and the reply read (a reconnect re-sends or throws).',
+ 'C11': 'Also decided: the string writer is exact against RFC 8259 section 7 for every input of length 0..2 (abstract interpretation, both appenders), the reader escape table equals RFC 8259, and the parser never narrows a token to a NUL-terminated string.',
+ 'C12': 'Also decided: read_file rewinds before copying a field into post(); save_to marks the temporary file as gone only after a successful rename or an explicit remove.',
+ 'C14': 'Also decided by abstract interpretation: validate_or_filter_utf8 is exact against a reference filter built on the RFC 3629 table (lengths 0..2, 0..3 thorough); booster utf_to_utf<char,char> throws with `stop` exactly on ill-formed or truncated input and with `skip` always yields well-formed text, unchanged when the input is well-formed; the charset fall-back of valid() converts with `stop`.',
+ 'C15': 'Also decided: the stream-buffer variants report a failing sink (every sputn/sputc result decides continuation; urlencode asks failed() of the iterator that wrote); every success return of b64url::decode(string) stores the output. Two genuine defects found by these rules were repaired (known_findings.json).',
+ 'C16': 'Also decided (OpenSSL back-end): AES_cbc_encrypt is given the member chaining IV and key schedule of its direction and set_iv fills both.',
+ 'C17': 'Also decided: retry objects re-arm or complete on the error code of their own I/O attempt; the shuffle of ready events stays inside the n events of the current poll (linear implication).',
+ 'C19': 'Also decided: every read_chunk(p,n) of the 30 trivially-copyable loaders writes inside the object p points to (vectors scaled by element size); each rejection of next_chunk_size is infeasible when a complete chunk remains, so archives ending in an empty chunk load.',
+ 'C20': 'Also decided: every scan over mount points in applications_pool is first-hit (a later match never replaces the selection).',
+}
+for _pid, _t in EXTRA.items():
+    CLAIMS[_pid]['text'] += ' ' + _t
